@@ -30,7 +30,7 @@ ASSUMPTIONS = [
     "text/table after a FAILING execute_steps are not demanded",
     "a cleanup error at the test-run layer fails the run; at feature/rule/scenario layer it makes the owner 'error'",
 ]
-REQUIRED = {"wild.every_cleanup_ran_exactly_once": {"quick": 8, "thorough": 300}, "run.rule_attribute_ends_with_its_rule": 1000, "hist.observable_result": {"quick": 50000, "thorough": 2000000}, "hist.cleanup_order_exactly_once": {"quick": 10000, "thorough": 500000},
+REQUIRED = {"wild.every_cleanup_ran_exactly_once": {"quick": 8, "thorough": 15}, "run.rule_attribute_ends_with_its_rule": 1000, "hist.observable_result": {"quick": 50000, "thorough": 2000000}, "hist.cleanup_order_exactly_once": {"quick": 10000, "thorough": 500000},
             "hist.pop_shrinks_stack_even_when_raising": {"quick": 10000, "thorough": 400000}, "hist.pop_raises_iff_cleanup_raised": {"quick": 10000, "thorough": 400000},
             "run.visibility": {"quick": 3000, "thorough": 150000}, "run.cleanups_lifo_exactly_once_at_scope_end": {"quick": 800, "thorough": 40000},
             "run.raising_cleanup_fails_owner_and_run": {"quick": 60, "thorough": 3000}, "run.execute_steps_restores_text_table": {"quick": 30, "thorough": 1500},
